@@ -37,7 +37,7 @@ def run_reader_case(ctx, case, tmpdir):
         ctx.violation("constructor-raises:" + type(exc).__name__, {"case": cj, "exception": repr(exc)[:300]})
         return
     try:
-        cands, probs = RC.expected_blocks(case, data, reader)
+        cands, probs = RC.expected_blocks(case, RC.effective_data(case, data), reader)
         for key, d in probs:
             ctx.violation(key, dict(d, case=cj))
         reader.open()
